@@ -6,6 +6,7 @@
 
 
 """
+import math
 import numpy
 
 from ...core.dfunction import DFunction
@@ -326,7 +327,7 @@ class SpectralDensity(DFunction, UnitsManaged):
 
                 for ii in range(2):
                     cfce = cfce+\
-                    (ss[ii]/(numpy.math.factorial(7)*2*(freq[ii]**4)))*\
+                    (ss[ii]/(math.factorial(7)*2*(freq[ii]**4)))*\
                     (omega**3)*(numpy.exp(-numpy.abs(omega/freq[ii])**0.5))
                 # Converts the form of the spectral density to the one used in Quantarhei
                 cfce = cfce * (omega**2)
